@@ -626,6 +626,10 @@ where
     let mut capped = false;
     let mut identities = vec![];
     while let Some((real, r)) = queue.pop_front() {
+        // len / iter_all / iter_deliverable on the network *as next_state left it* (not on a
+        // rebuilt copy: a copy would hide anything that depends on the in-memory representation,
+        // e.g. a ring buffer that has wrapped around)
+        real_network_api(&real.network, &r.net)?;
         order.push(r.clone());
         identities.push((crate::rechash::stream(&real), stateright::verif_hooks::fingerprint_of(&real)));
         // enabled actions as multisets
@@ -922,4 +926,31 @@ pub fn classify_transition(sys: &SysDesc, from: &RState, a: &RAct, to: Option<&R
 
 pub fn idx8_(raw: u8, len: usize) -> usize {
     idx8(raw, len)
+}
+
+/// `len`, `iter_all` and `iter_deliverable` of the real network against the reference contents.
+pub fn real_network_api<M: MsgCodec>(net: &Network<M>, want: &RNet) -> Result<(), Fail> {
+    let cap = want.len() + 2;
+    if net.len() != want.len() {
+        return Err(Fail::new("refsys/network-api/len-wrong", format!("len()={} but the network holds {} message(s): {:?}", net.len(), want.len(), want)));
+    }
+    let e = |x: Envelope<&M>| (usize::from(x.src), usize::from(x.dst), x.msg.to_u8());
+    let mut all: Vec<_> = net.iter_all().take(cap + 1).map(e).collect();
+    if all.len() > cap {
+        return Err(Fail::new("refsys/network-api/iter_all-does-not-terminate", format!("iter_all() yielded more than {} items for {:?}", cap, want)));
+    }
+    let mut want_all = want.all();
+    all.sort();
+    want_all.sort();
+    if all != want_all {
+        return Err(Fail::new("refsys/network-api/iter_all-wrong", format!("iter_all() yields {:?}, the network holds {:?}", all, want_all)));
+    }
+    let mut del: Vec<_> = net.iter_deliverable().take(cap + 1).map(e).collect();
+    let mut want_del = want.deliverable();
+    del.sort();
+    want_del.sort();
+    if del != want_del {
+        return Err(Fail::new("refsys/network-api/iter_deliverable-wrong", format!("iter_deliverable() yields {:?}, deliverable are {:?}", del, want_del)));
+    }
+    Ok(())
 }
